@@ -823,6 +823,40 @@ def _run(res, tier, seed, proofs_ok):
                       f'{conv.exc}: {conv.msg[:120]}',
                       {'input': {'deck': WITNESS_TRIVIAL_RANGE}},
                       found_input=True)
+    # the concrete prism of the Coq example C07_example_base_vectors, on the
+    # implementation (the non-vacuity example and the code agree)
+    ex_surfs = [(((2.0, 0.0, 0.0), (1.0, -1.0, 0.0)), -1),
+                (((-2.0, 0.0, 5.0), (1.0, -1.0, 0.0)), 1),
+                (((1.0, 1.0, 0.0), (2.0, 2.0, 0.0)), -1),
+                (((-1.0, -1.0, 0.0), (-1.0, -1.0, 0.0)), -1),
+                (((0.0, 1.0, -2.0), (0.0, -1.0, 0.0)), 1),
+                (((1.0, -1.0, 0.0), (0.0, -1.0, 0.0)), -1),
+                (((0.0, 0.0, 3.0), (0.0, 0.0, 1.0)), -1),
+                (((7.0, 0.0, -1.0), (0.0, 0.0, 2.0)), 1)]
+    got = guarded(LT.hexLatticeBaseVectors, ex_surfs)
+    want = [(3.0, -1.0, 0.0), (3.0, 1.0, 0.0), (0.0, 0.0, 4.0)]
+    ok_ex = got[0] == 'ok' and len(got[1]) == 3 and all(
+        abs(a - b) < 1e-12 for v, w in zip(got[1], want) for a, b in zip(v, w))
+    res.obligation('corpus: the prism of the Coq example C07_example_base_vectors '
+                   'gives (3,-1,0) (3,1,0) (0,0,4) on the implementation', ok_ex,
+                   repr(got)[:200])
+    if not ok_ex:
+        res.violation('impl-violation',
+                      'hexLatticeBaseVectors on the prism of the Coq example: '
+                      f'{got!r}', {'input': {'surfaces': ex_surfs},
+                                   'expected': want}, found_input=True)
+    # the open chain of C07_open_chain_never_ends: the loop must not end (M5)
+    chain = {(0, 2), (0, 4), (1, 3), (1, 5), (2, 4), (3, 5)}
+    wout = walk_on_fake_adjacency(LT, chain, 0)
+    res.obligation('corpus: two triangles instead of a tour: the loop of '
+                   'hexVertices does not end (model: ELoop)',
+                   wout == ('err', 'ELoop'), repr(wout))
+    if wout != ('err', 'ELoop'):
+        res.violation('correspondence', 'hexVertices on the two-triangle '
+                      f'dictionary: {wout!r}, the model says ELoop',
+                      {'input': {'pairs': sorted(chain), 'first': 0},
+                       'theorem_or_correspondence': 'tie:walk'},
+                      found_input=False)
     _stage('witnesses')
     # ---------------- function-level streams ----------------
     stream = []          # (surfaces, hexa or None, listing or None, fault)
